@@ -359,3 +359,20 @@ for _k in list(CHECKS):
 THOROUGH_NOTE = ('The thorough tier analyses all three build configurations, runs the anchored self-test mutants, and replays the kept '
                  'corpus on scratch copies: every seeded change attributed to the check must be reported and every behaviour-preserving '
                  'refactoring must leave it silent (a miss or an alarm there makes the run analysis-broken).')
+
+
+# ---- wave-7 extensions (third seeding round for C08 C09 C17 C19, refactor set cont2) -----------------------------------------
+CHECKS['C08'].update(text=CHECKS['C08']['text'] + ' DL2: link-in protocol (mirror of DL1): at the count increment each side of the new '
+                     'entry is closed - the end pointer is the entry where it has no neighbour, the neighbour\'s opposite link is the '
+                     'entry where it has one (values tracked as (expression, version), list invariant first == NULL <=> last == NULL used '
+                     'for pruning). GR1: growable result array of getmulti - the no-growth outcome of the capacity test leaves room for '
+                     'the highest index written (the end marker).')
+CHECKS['C09'].update(text=CHECKS['C09']['text'] + ' DL2 link-in protocol as for C08. E6: the size limit is written only by the constructor '
+                     'and setsize; block fills starting at a field are followed through the record layout.')
+CHECKS['C17'].update(text=CHECKS['C17']['text'] + ' M6: the pointer handed to free() is the allocation base (a local holding an allocation is '
+                     'not advanced before it is freed). CU5: the word classifier whose acceptance lets the parser overwrite the word in '
+                     'place compares whole words (no prefix match that accepts the empty word).')
+CHECKS['C11'].update(text=CHECKS['C11']['text'] + ' M6 (free receives the allocation base) and GR1 (growable array protocol) as well.')
+CHECKS['C19'].update(text=CHECKS['C19']['text'] + ' W5: the result of (v)snprintf is accepted as complete only when strictly below the size '
+                     'passed in (qstrdupf / qstrcatf through the shared formatting macro).')
+CHECKS['C20'].update(text=CHECKS['C20']['text'] + ' B1 also requires whole-word comparison in the boolean classifier.')
